@@ -216,6 +216,13 @@ class Model(object):
                         imp[local] = ('mod', a.name)
                     else:
                         imp[local] = ('obj', base, a.name)
+            elif base == 'geomdl':
+                # absolute spelling of a package-internal import (freeform.py: `from geomdl import abstract`)
+                for a in n.names:
+                    imp[a.asname or a.name] = ('mod', a.name)
+            elif base.startswith('geomdl.'):
+                for a in n.names:
+                    imp[a.asname or a.name] = ('obj', base[len('geomdl.'):], a.name)
             else:
                 for a in n.names:
                     imp[a.asname or a.name] = ('ext', base + '.' + a.name)
